@@ -208,4 +208,26 @@ theorem C09_log_merge_comm_src (d : Nat → Nat) (maxc mcS : Nat) (A Bt : Tab) (
   rw [(C09_log_merge_src _ A Bt width depth mc maxc nr nar onar r c hr hc).1, (C09_log_merge_src _ Bt A width depth mc maxc nr onar nar r c hr hc).1]
   exact C09.merge_comm d maxc mcS _ _
 
+/-- **C05 (log sketches) for the code as it reads now**: right after `add(key, v)` the counter-unit estimate of `key` is exactly what
+    `_log_counter` returned for the old estimate (the one-step law; below the ceiling) — whatever the draws were -/
+theorem C05_log_self_src (ko : Rt.KeyOps K B) (lcAt : Hist K → Nat → Nat → Nat → Nat × Nat) (cell : Nat → Nat → Nat) (width depth mc maxc nr : Nat)
+    (hl : ∀ h, LcOK nr maxc (lcAt h)) (h : Hist K) (k : K) (v : Nat)
+    (hlt : srcQueryC16 ko lcAt cell width depth mc maxc nr h k < maxc) :
+    srcQueryC16 ko lcAt cell width depth mc maxc nr (.add h k v) k =
+      (lcAt (.add h k v) (srcQueryC16 ko lcAt cell width depth mc maxc nr h k) (srcRunLog16 ko lcAt cell width depth mc maxc nr h).1 v).1 := by
+  unfold srcQueryC16 at *
+  rw [query_log16_full] at hlt ⊢
+  rw [query_log16_full]
+  simp only [srcRunLog16]
+  rw [(FullApi.log_add_api ko _ _ _ _ width depth maxc nr _ k v).1]
+  simp only [addLogSpec]
+  have hq := hlt
+  have h1 := (hl (.add h k v)).ge (tquery (geomOf ko depth width) maxc (srcRunLog16 ko lcAt cell width depth mc maxc nr h).2.1 k)
+    (srcRunLog16 ko lcAt cell width depth mc maxc nr h).1 v
+  have h3 := (hl (.add h k v)).cap (tquery (geomOf ko depth width) maxc (srcRunLog16 ko lcAt cell width depth mc maxc nr h).2.1 k)
+    (srcRunLog16 ko lcAt cell width depth mc maxc nr h).1 v (Nat.le_of_lt hq)
+  split
+  · next he => exact he.symm
+  · exact tquery_raiseTo_self _ maxc _ k _ h1 h3 hq
+
 end Sketchnu.EndToEndLog
